@@ -403,6 +403,9 @@ def planted(draw, max_copies=4, pattern_classes=None, cell_classes=None, with_de
     """a periodic structure with planted copies of a pattern.  Returns a JSON-able case dict:
     cell, spos, sels, ppos, pels, atol, hints, seeds, meta"""
     atol = draw(st.sampled_from(atols or ATOLS))
+    # decoys are displaced by multiples of the tolerance; for a zero / tiny tolerance by multiples of 0.004 A, i.e. by less
+    # than the default tolerance of 0.05 A (a tolerance that is dropped on the way falls back to the default)
+    dsc = atol if atol >= 1e-3 else 0.004
     if pat is None:
         pat = draw(pattern(classes=pattern_classes, max_atoms=max_atoms, min_atoms=min_atoms, alphabet=draw(st.sampled_from(ALPHABETS))))
     ppos = np.asarray(pat["pos"], float)
@@ -429,7 +432,7 @@ def planted(draw, max_copies=4, pattern_classes=None, cell_classes=None, with_de
             eps = 0.0
         nz = draw(noise_vectors(n, eps))
         w, crossings, _ = place(cell, ppos, R, af, nz)
-        copies.append({"start": len(spos), "pose": pcls, "crossings": crossings, "noise": eps / atol, "anchor": akinds})
+        copies.append({"start": len(spos), "pose": pcls, "crossings": crossings, "noise": eps / atol if atol else 0.0, "anchor": akinds})
         spos += w.tolist()
         sels += list(pat["els"])
     decoys = []
@@ -454,7 +457,7 @@ def planted(draw, max_copies=4, pattern_classes=None, cell_classes=None, with_de
             if kind == "near-miss":
                 j = draw(hperm.integers(0, n - 1))
                 u = draw(unit_vector())
-                q[j] = q[j] + u * atol * draw(st.floats(4.0, 12.0))
+                q[j] = q[j] + u * dsc * draw(st.floats(4.0, 12.0))
             elif kind == "out-of-plane":
                 # one atom moved along the normal of a planar (or across the axis of a collinear) pattern by 2-3.4
                 # tolerances: pair distances change only to second order, so the candidate passes every distance
@@ -464,11 +467,11 @@ def planted(draw, max_copies=4, pattern_classes=None, cell_classes=None, with_de
                 if len(q) >= 3 and s_[-1] < 1e-6 * max(1.0, s_[0]):
                     nrm = vt[-1]
                     j = draw(hperm.integers(0, n - 1))
-                    q[j] = q[j] + nrm * atol * draw(st.floats(*oop_range)) * draw(st.sampled_from([-1.0, 1.0]))
+                    q[j] = q[j] + nrm * dsc * draw(st.floats(*oop_range)) * draw(st.sampled_from([-1.0, 1.0]))
                 else:
                     kind = "near-miss"
                     j = draw(hperm.integers(0, n - 1))
-                    q[j] = q[j] + draw(unit_vector()) * atol * draw(st.floats(4.0, 12.0))
+                    q[j] = q[j] + draw(unit_vector()) * dsc * draw(st.floats(4.0, 12.0))
             elif kind == "mirror":
                 q[:, 0] = -q[:, 0]
             elif kind == "element":
